@@ -71,6 +71,42 @@ Qed.
 Lemma copy_eof B d k : eof_delivered d = false -> unread d = [] -> src_closed d = true -> eof_delivered (rstep B d (RCopy k)) = true.
 Proof. intros E U S. cbn [rstep]. rewrite E, U, S. reflexivity. Qed.
 
+(* bytes never wait for more bytes: with nothing further sent, copy rounds alone deliver everything that is unread -
+   one round per byte is always enough, whatever the sizes of the reads (a request/response exchange cannot stall) *)
+Definition copy_rounds (B : N) (d : dir) (ks : list N) : dir := fold_left (fun d k => rstep B d (RCopy k)) ks d.
+
+Lemma copy_rounds_idle B ks : forall d, unread d = [] ->
+  unread (copy_rounds B d ks) = [] /\ delivered (copy_rounds B d ks) = delivered d.
+Proof.
+  induction ks as [|k t IH]; intros d U; [split; [exact U | reflexivity]|].
+  cbn [copy_rounds fold_left]. fold (copy_rounds B (rstep B d (RCopy k)) t).
+  assert (H : unread (rstep B d (RCopy k)) = [] /\ delivered (rstep B d (RCopy k)) = delivered d).
+  { cbn [rstep]. destruct (eof_delivered d); [split; [exact U | reflexivity]|]. rewrite U.
+    destruct (src_closed d); split; try reflexivity; exact U. }
+  destruct H as [H1 H2]. destruct (IH _ H1) as [J1 J2]. split; [exact J1 | congruence].
+Qed.
+
+Lemma copy_drains B ks : forall d, 1 <= B -> eof_delivered d = false -> lenN (unread d) <= N.of_nat (length ks) ->
+  unread (copy_rounds B d ks) = [] /\ delivered (copy_rounds B d ks) = delivered d ++ unread d.
+Proof.
+  induction ks as [|k t IH]; intros d HB E L.
+  - cbn [length] in L. destruct (unread d) as [|x u] eqn:Eu; [split; [exact Eu | rewrite app_nil_r; reflexivity]|].
+    cbn [lenN length] in L. lia.
+  - destruct (unread d) as [|x u] eqn:Eu.
+    + destruct (copy_rounds_idle B (k :: t) d Eu) as [H1 H2]. split; [exact H1 | rewrite H2, app_nil_r; reflexivity].
+    + cbn [copy_rounds fold_left]. fold (copy_rounds B (rstep B d (RCopy k)) t).
+      assert (Hne : unread d <> []) by (rewrite Eu; discriminate).
+      pose proof (copy_progress B d k HB E Hne) as Hp.
+      assert (Hs : eof_delivered (rstep B d (RCopy k)) = false /\
+                   delivered (rstep B d (RCopy k)) ++ unread (rstep B d (RCopy k)) = delivered d ++ unread d).
+      { cbn [rstep]. rewrite E, Eu. cbn [eof_delivered delivered unread]. split; [reflexivity|].
+        rewrite <- app_assoc, take_drop. reflexivity. }
+      destruct Hs as [E1 D1].
+      destruct (IH (rstep B d (RCopy k)) HB E1) as [J1 J2].
+      * rewrite Eu in Hp. cbn [length] in L. rewrite Nat2N.inj_succ in L. lia.
+      * split; [exact J1 | rewrite J2, D1, Eu; reflexivity].
+Qed.
+
 (* the other direction is untouched by anything that happens in this one *)
 Lemma directions_independent B c2b b2c extra : snd (both B (c2b ++ extra) b2c) = snd (both B c2b b2c).
 Proof. reflexivity. Qed.
